@@ -12,5 +12,5 @@ INIT DecisionInit
 NEXT MCNextOpts
 ACTION_CONSTRAINT LogEdge
 INVARIANTS TypeOK C11_ManagerInv
-PROPERTIES OnlyTheDeviationBreaksIt AddOptsPost C11_IdsStayUnavailable
+PROPERTIES OnlyTheDeviationBreaksIt OnlyTheDeviationLosesPrimary AddOptsPost C11_IdsStayUnavailable C11_PrimaryProtected
 CHECK_DEADLOCK FALSE
